@@ -120,6 +120,8 @@ impl<'a> ZipFile<'a> {
 //@use zipfile_compression
 //@use zipfile_crc32
 //@use zipfile_header_start
+//@use zipfile_extra_data
+//@use zipfile_data_start
 //@use zipfile_central_header_start
 //@use zipfile_unix_mode
 //@use zipfile_name
